@@ -11,6 +11,8 @@ import SecsModel.Props.C18c
 #print axioms SecsModel.Props.C18.events_unequal_depth
 #print axioms SecsModel.Props.C18.witness_nested_hier
 #print axioms SecsModel.Props.C18.witness_nested_hier_parent
+#print axioms SecsModel.Props.C18.witness_handler_raises
+#print axioms SecsModel.Props.C18.witness_handler_raises_leave
 #print axioms SecsModel.Props.C18.witness_leave_handler
 #print axioms SecsModel.Props.C18.witness_race
 #print axioms SecsModel.Props.C18.serialised_generic
